@@ -476,24 +476,28 @@ theorem should_complete_table_40 (st : Nat) :
 
 /-- **seq_advance_rule** (4.0): when the transaction of an open-owner completes,
 the owner's cached seqid becomes the transaction's seqid and its response is
-cached iff `transactionShouldComplete` of the response status; otherwise the
-seqid is unchanged and nothing is cached (the previous response was dropped
-when the transaction started). -/
+cached iff `transactionShouldComplete` of the status of the response it completes with
+(`effResp`: the operation's response, or for LOCK with `open_to_lock_owner4`
+the outcome of the nested lock-owner transaction); otherwise the seqid is
+unchanged and nothing is cached (the previous response was dropped when the
+transaction started). -/
 theorem seq_advance_rule_40 {s : State} (h : Reachable s) (o : Nat) (x : Fin) (call : Nat) (r : Req)
     (hb : (s.oo o).busy = some (call, r)) :
-    (shouldComplete x.resp.status = true →
-      ((finish s o x).1.oo o).lastSeq = r.seq ∧ ((finish s o x).1.oo o).lastResp = some x.resp) ∧
-    (shouldComplete x.resp.status = false →
+    (shouldComplete (effResp s r x).status = true →
+      ((finish s o x).1.oo o).lastSeq = r.seq ∧ ((finish s o x).1.oo o).lastResp = some (effResp s r x)) ∧
+    (shouldComplete (effResp s r x).status = false →
       ((finish s o x).1.oo o).lastSeq = (s.oo o).lastSeq ∧ ((finish s o x).1.oo o).lastResp = none) ∧
-    ((finish s o x).1.oo o).busy = none ∧ (finish s o x).2.1 = some (call, x.resp) := by
+    ((finish s o x).1.oo o).busy = none ∧ (finish s o x).2.1 = some (call, effReply s r x) ∧
+    (r.kind ≠ .lock → effResp s r x = x.resp ∧ effReply s r x = .cached x.resp) := by
   have hinv := inv_reachable h
   rw [finish_oo_same s o x call r hb]
-  refine ⟨fun ha => by simp [ha], fun ha => ?_, rfl, (finish_waiting s o x call r hb).2.2⟩
+  refine ⟨fun ha => by simp [ha], fun ha => ?_, rfl, (finish_waiting s o x call r hb).2.2,
+    fun hk => ⟨effResp_not_lock s r x hk, effReply_not_lock s r x hk⟩⟩
   simp [ha, (hinv.busy o _ hb).1]
 
 /-- Same rule for lock-owners (`lockOwnerTransaction.complete`). -/
 theorem lock_seq_advance_rule_40 (s : State) (r : LReq) (x : Resp) (lk f : Nat)
-    (hl : s.lockOther r.other = some (lk, f)) (hex : (lockTx s r x).2.2 = true) :
+    (hl : lockLookup s r.other = some (lk, f)) (hex : (lockTx s r x).2.2 = true) :
     (shouldComplete x.status = true →
       ((lockTx s r x).1.lo lk).lastSeq = r.seq ∧ ((lockTx s r x).1.lo lk).lastResp = some x) ∧
     (shouldComplete x.status = false →
@@ -658,8 +662,9 @@ theorem inflight_open_gets_original_reply_40 {s : State} (h : Reachable s) (o ca
     (arrive (finish s o x).1 c r).2 = .reply (.cached x.resp) := by
   have hr : Reachable (finish s o x).1 := Reachable.step (.finish o x) h
   have hres : resolve (finish s o x).1 r = some o := by simp [resolve, hk, ho]
+  have he : effResp s r x = x.resp := effResp_not_lock s r x (by rw [hk]; decide)
   have hdone : ((finish s o x).1.oo o).lastDone = some (r, x.resp) := by
-    rw [finish_oo_same s o x call r hb]; simp [hadv]
+    rw [finish_oo_same s o x call r hb, he]; simp [hadv]
   obtain ⟨h1, h2⟩ := same_reply_40 hr c r r x.resp o hres hdone rfl
   rw [h1]
   have : replayReply r x.resp = .cached x.resp := by
@@ -676,25 +681,88 @@ theorem close_replay_resolvable_40 {s : State} (h : Reachable s) (o call : Nat) 
     resolve (finish s o x).1 r = some o ∧
     (arrive (finish s o x).1 c r).2 = .reply (.cached x.resp) := by
   have hadv : shouldComplete x.resp.status = true := by rw [hst]; decide
+  have he : effResp s r x = x.resp := effResp_not_lock s r x (by rw [hk]; decide)
   have hres' : resolve (finish s o x).1 r = some o := by
     unfold resolve finish
     rw [hb]
-    simp only [hk, reduceCtorEq, if_false]
+    simp only [hk, reduceCtorEq, if_false, he]
     cases hs : x.resp.sid with
     | none => simpa using hres
     | some p => obtain ⟨f', q⟩ := p; simp [hres]
   have hr : Reachable (finish s o x).1 := Reachable.step (.finish o x) h
   have hdone : ((finish s o x).1.oo o).lastDone = some (r, x.resp) := by
-    rw [finish_oo_same s o x call r hb]; simp [hadv]
+    rw [finish_oo_same s o x call r hb, he]; simp [hadv]
   obtain ⟨h1, h2⟩ := same_reply_40 hr c r r x.resp o hres' hdone rfl
   exact ⟨hres', by rw [h1, h2 rfl rfl rfl hwf]⟩
+
+/-- **Nested lock-owner transaction, misordered** (LOCK with `open_to_lock_owner4`
+on an EXISTING lock-owner): if the lock-owner is already associated with the
+file, or the lock seqid is neither its cached one nor the successor, the
+request is answered NFS4ERR_BAD_SEQID and has no effect on either owner: the
+open-owner's seqid does not advance, nothing is cached, the lock-owner and its
+files are untouched.  (RFC 7530 9.1.7: BAD_SEQID never advances a seqid.) -/
+theorem nested_lock_misordered_no_effect_40 {s : State} (h : Reachable s) (o call : Nat) (r : Req) (x : Fin)
+    (hb : (s.oo o).busy = some (call, r)) (hk : r.kind = .lock) (hreach : x.reached = true)
+    (hn : nested s x.lockOwner r.other x.lockSeq = .fail) :
+    (finish s o x).2.1 = some (call, .err errBadSeqid) ∧
+    ((finish s o x).1.oo o).lastSeq = (s.oo o).lastSeq ∧ ((finish s o x).1.oo o).lastResp = none ∧
+    (finish s o x).1.lo = s.lo ∧ (finish s o x).1.lockFiles = s.lockFiles := by
+  have hinv := inv_reachable h
+  have he : effResp s r x = ⟨.lock, errBadSeqid, none, x.resp.body⟩ := by
+    unfold effResp; simp [hk, hreach, hn]
+  have hr : effReply s r x = .err errBadSeqid := by
+    unfold effReply; simp [hk, hreach, hn]
+  have hns : nestedStarted s r x = none := by
+    unfold nestedStarted; simp [hk, hreach, hn]
+  have hsc : shouldComplete errBadSeqid = false := by decide
+  refine ⟨by rw [(finish_waiting s o x call r hb).2.2, hr], ?_, ?_, ?_, ?_⟩
+  · rw [finish_oo_same s o x call r hb, he]; simp [hsc]
+  · rw [finish_oo_same s o x call r hb, he]; simp [hsc, (hinv.busy o _ hb).1]
+  · unfold finish; rw [hb]; simp only [hns]
+  · unfold finish; rw [hb]
+    simp only [hns, he, hk]
+    simp [errBadSeqid]
+
+/-- **Nested lock-owner transaction, replay**: a LOCK with `open_to_lock_owner4`
+that carries the existing lock-owner's cached lock seqid is answered with the
+lock-owner's cached LOCK response (only a LOCK response), without attempting
+the lock: the lock-owner and its files are untouched. -/
+theorem nested_lock_replay_40 (s : State) (o call : Nat) (r : Req) (x : Fin) (c : Resp)
+    (hb : (s.oo o).busy = some (call, r)) (hk : r.kind = .lock) (hreach : x.reached = true)
+    (hn : nested s x.lockOwner r.other x.lockSeq = .cached c) :
+    (finish s o x).2.1 = some (call, .cached c) ∧ c.kind = .lock ∧
+    (s.lo x.lockOwner).lastResp = some c ∧ x.lockSeq = (s.lo x.lockOwner).lastSeq ∧
+    (finish s o x).1.lo = s.lo := by
+  have hr : effReply s r x = .cached c := by
+    unfold effReply; simp [hk, hreach, hn]
+  have hns : nestedStarted s r x = none := by
+    unfold nestedStarted; simp [hk, hreach, hn]
+  have hshape : c.kind = .lock ∧ (s.lo x.lockOwner).lastResp = some c ∧ x.lockSeq = (s.lo x.lockOwner).lastSeq := by
+    unfold nested at hn
+    split at hn
+    · cases hn
+    · split at hn
+      · cases hn
+      · split at hn
+        · rename_i resp hresp
+          split at hn
+          · rename_i hq
+            split at hn
+            · rename_i hkind
+              cases hn
+              exact ⟨hkind, hresp, by simpa using hq⟩
+            · cases hn
+          · split at hn <;> cases hn
+        · split at hn <;> cases hn
+  refine ⟨by rw [(finish_waiting s o x call r hb).2.2, hr], hshape.1, hshape.2.1, hshape.2.2, ?_⟩
+  unfold finish; rw [hb]; simp only [hns]
 
 /-- Lock-owner replay (LOCK with an existing lock-owner, LOCKU): a request with
 the lock-owner's cached seqid never executes; it gets the cached response only
 if that has the request's type (and, if OK, the successor state ID), else
 BAD_SEQID; any other seqid but the successor is refused; nothing changes. -/
 theorem lock_replay_40 (s : State) (r : LReq) (x : Resp) (lk f : Nat) (resp : Resp)
-    (hl : s.lockOther r.other = some (lk, f)) (hr : (s.lo lk).lastResp = some resp) (hq : r.seq = (s.lo lk).lastSeq) :
+    (hl : lockLookup s r.other = some (lk, f)) (hr : (s.lo lk).lastResp = some resp) (hq : r.seq = (s.lo lk).lastSeq) :
     (lockTx s r x).1 = s ∧ (lockTx s r x).2.2 = false ∧
     ((lockTx s r x).2.1 = .cached resp ∨ (lockTx s r x).2.1 = .err errBadSeqid) ∧
     ((lockTx s r x).2.1 = .cached resp → resp.kind = r.kind) := by
@@ -712,7 +780,7 @@ theorem lock_replay_40 (s : State) (r : LReq) (x : Resp) (lk f : Nat) (resp : Re
     · rename_i hk; intro _; simpa using hk
 
 theorem lock_misordered_no_effect_40 (s : State) (r : LReq) (x : Resp) (lk f : Nat)
-    (hl : s.lockOther r.other = some (lk, f))
+    (hl : lockLookup s r.other = some (lk, f))
     (h1 : (s.lo lk).lastResp = none ∨ r.seq ≠ (s.lo lk).lastSeq) (h2 : r.seq ≠ nextSeq (s.lo lk).lastSeq) :
     lockTx s r x = (s, .err errBadSeqid, false) := by
   unfold lockTx
@@ -729,17 +797,35 @@ retransmission (cached), OPEN_CONFIRM seq 6, a CLOSE with the OPEN's seqid
 example :
     let open0 : Req := ⟨.open_, 7, 0, 0, 5, 1⟩
     let s1 := (arrive {} 0 open0).1
-    let s2 := (finish s1 7 ⟨⟨.open_, 0, some (3, 1), 0⟩, 0, 0⟩).1
+    let s2 := (finish s1 7 ⟨⟨.open_, 0, some (3, 1), 0⟩, 0, 0, false⟩).1
     let conf : Req := ⟨.openConfirm, 0, 3, 1, 6, 2⟩
-    let s3 := (finish (arrive s2 2 conf).1 7 ⟨⟨.openConfirm, 0, some (3, 2), 2⟩, 0, 0⟩).1
+    let s3 := (finish (arrive s2 2 conf).1 7 ⟨⟨.openConfirm, 0, some (3, 2), 2⟩, 0, 0, false⟩).1
     let close : Req := ⟨.close, 0, 3, 2, 7, 3⟩
-    let s4 := (finish (arrive s3 5 close).1 7 ⟨⟨.close, 0, some (3, 3), 5⟩, 0, 0⟩).1
+    let s4 := (finish (arrive s3 5 close).1 7 ⟨⟨.close, 0, some (3, 3), 5⟩, 0, 0, false⟩).1
     (arrive {} 0 open0).2 = .started ∧
     (arrive s2 1 open0).2 = .reply (.cached ⟨.open_, 0, some (3, 1), 0⟩) ∧
     (arrive s3 3 { close with seq := 6 }).2 = .reply (.err errBadSeqid) ∧
     (arrive s3 4 { close with seq := 9 }).2 = .reply (.err errBadSeqid) ∧
     (arrive s4 6 close).2 = .reply (.cached ⟨.close, 0, some (3, 3), 5⟩) ∧
     (arrive s4 7 { close with argSeq := 1 }).2 = .reply (.err errBadSeqid) := by
+  decide
+
+/-- The nested case: owner 7 has files 3 and 4 open, lock-owner 9 holds file 3
+(lock seqid 100).  LOCK(new) of lock-owner 9 on file 4 with open seqid 14 and
+lock seqid 105 is refused without consuming seqid 14; with lock seqid 101 it
+then runs; with lock seqid 100 it would get the cached LOCK response. -/
+example :
+    let s0 : State :=
+      { oo := fun k => if k = 7 then { confirmed := true, lastSeq := 13, busy := some (1, ⟨.lock, 0, 4, 1, 14, 1⟩) } else {}
+        openOther := fun f => if f = 3 ∨ f = 4 then some 7 else none
+        lo := fun k => if k = 9 then ⟨100, some ⟨.lock, 0, some (20, 1), 0⟩⟩ else {}
+        lockFiles := [(20, 9, 3)] }
+    nested s0 9 4 105 = .fail ∧ nested s0 9 4 101 = .start false ∧
+    nested s0 9 4 100 = .cached ⟨.lock, 0, some (20, 1), 0⟩ ∧ nested s0 9 3 101 = .fail ∧ nested s0 8 4 1 = .start true ∧
+    (finish s0 7 ⟨⟨.lock, 10026, none, 1⟩, 9, 105, true⟩).2.1 = some (1, .err errBadSeqid) ∧
+    ((finish s0 7 ⟨⟨.lock, 10026, none, 1⟩, 9, 105, true⟩).1.oo 7).lastSeq = 13 ∧
+    ((finish s0 7 ⟨⟨.lock, 0, some (21, 1), 1⟩, 9, 101, true⟩).1.oo 7).lastSeq = 14 ∧
+    (finish s0 7 ⟨⟨.lock, 0, some (21, 1), 1⟩, 9, 101, true⟩).1.lockFiles = [(20, 9, 3), (21, 9, 4)] := by
   decide
 
 end V40
